@@ -1,0 +1,25 @@
+//go:build verif
+
+package adapter
+
+// Contracts for the verification machinery in /verif (comment-only; build tag verif).
+// Assumed behaviour of the database adapter interface, in terms of ghost state that abstracts the store:
+//   hwm[topic]    - the sequence id stored in the topic's row (high-water mark)
+//   rowMax[topic] - the largest sequence id among the topic's stored message rows
+// An adapter call that returns an error has changed nothing (atomicity of one adapter call is C18's subject).
+
+//@ ghost var hwm map[string]int
+//@ ghost var rowMax map[string]int
+
+//@ func (a Adapter) TopicUpdateOnMessage(topic string, msg *t.Message) (err error)
+//@   modifies hwm[topic]
+//@   ensures err == nil ==> hwm[topic] == (old(hwm[topic]) >= msg.SeqId ? old(hwm[topic]) : msg.SeqId)
+//@   ensures err != nil ==> hwm[topic] == old(hwm[topic])
+
+//@ func (a Adapter) MessageSave(msg *t.Message) (err error)
+//@   modifies rowMax[msg.Topic]
+//@   ensures err == nil ==> rowMax[msg.Topic] == (old(rowMax[msg.Topic]) >= msg.SeqId ? old(rowMax[msg.Topic]) : msg.SeqId)
+//@   ensures err != nil ==> rowMax[msg.Topic] == old(rowMax[msg.Topic])
+
+//@ func (a Adapter) SubsUpdate(topic string, user t.Uid, update map[string]interface{}) (err error)
+//@ func (a Adapter) FileLinkAttachments(topic string, userId t.Uid, msgId t.Uid, fids []string) (err error)
